@@ -392,10 +392,11 @@ func (r *Rel) Invert() Rel {
 //
 // This is the form stored in Schema.Rels.
 func (r *Rel) Normalize() Rel {
-	from := r.FromType + r.FromName
-	to := r.ToType + r.ToName
-
-	if from < to || r.ToName == "" {
+	// Compare the type names first and then the relationship names.
+	// Comparing the concatenations would make ("ab", "c") and
+	// ("a", "bc") indistinguishable.
+	if r.ToName == "" || r.FromType < r.ToType ||
+		(r.FromType == r.ToType && r.FromName <= r.ToName) {
 		return *r
 	}
 
